@@ -34,19 +34,25 @@ Print Assumptions C18_code_no_separator.
 (* (2) the two directions of the store stay in step, for ANY sequence of operations that
    satisfies op_wfb (user ids satisfy is_user; identifier texts supplied by callers and every
    digest the random source yields do not; all strings are bytes; no raw store; e-mail
-   format only without a domain): every non-empty code recorded under a user decodes to an
-   identifier whose text find_local_id resolves to exactly that user, and two records with
-   the same text are one record of one user. *)
+   format only without a domain): EVERY element of the code list recorded under a user decodes
+   to an identifier with a non-empty text that find_local_id resolves to exactly that user;
+   conversely whatever resolves to a user is recorded under that user; and two records with
+   the same text are one record of one user.
+   (Before fix C18-1 the first clause failed for the empty element remove_remote left behind:
+   C18_persistent_empty_before_fix_refuted.) *)
 Theorem C18_inverse_maps : forall (is_user : str -> bool) c ops,
   forallb (op_wfb is_user c) ops = true ->
   let d := run c [] ops in
-  (forall u c0, is_user u = true -> In c0 (entries d u) -> c0 <> [] ->
-     exists n t, decode c0 = Ok n /\ n_text n = Some t /\ is_user t = false /\ find_local_id d n = Some u) /\
+  (forall u c0, is_user u = true -> In c0 (entries d u) ->
+     exists n t, decode c0 = Ok n /\ n_text n = Some t /\ t <> [] /\ is_user t = false /\ find_local_id d n = Some u) /\
+  (forall t u, is_user t = false -> lookup t d = Some u ->
+     is_user u = true /\ exists c0 n, In c0 (entries d u) /\ decode c0 = Ok n /\ n_text n = Some t) /\
   (forall u1 u2 c1 c2 t, is_user u1 = true -> is_user u2 = true -> In c1 (entries d u1) -> In c2 (entries d u2) ->
      ctext c1 = Some t -> ctext c2 = Some t -> u1 = u2 /\ c1 = c2).
 Proof.
-  intros is_user c ops H d. pose proof (reachable_inv is_user c ops H) as I. split.
+  intros is_user c ops H d. pose proof (reachable_inv is_user c ops H) as I. split; [|split].
   - intros u c0. now apply inv_resolves.
+  - intros t u. now apply inv_recorded.
   - intros u1 u2 c1 c2 t. now apply inv_no_sharing.
 Qed.
 Print Assumptions C18_inverse_maps.
@@ -98,51 +104,122 @@ Proof.
 Qed.
 Print Assumptions C18_persistent_stable_under_issues.
 
-(* (3) no linkage: in every reachable state, what persistent_nameid finds for different users
-   or for different NON-EMPTY SP qualifiers has different texts, each resolving to its own user.
-   Full statement (any qualifiers): refuted below, C18_persistent_empty_refuted. *)
-Theorem C18_persistent_distinct_partial : forall (is_user : str -> bool) c ops u1 u2 sp1 sp2 nq1 nq2 n1 n2,
+(* (3) no linkage, FULL statement (any qualifiers, also empty ones): in every reachable state, what
+   persistent_nameid / match_local_id finds for different users, or for SP qualifiers / name
+   qualifiers that differ as Python reads them (None and the empty string both mean: no
+   qualifier), has different texts, each resolving to its own user. *)
+Theorem C18_persistent_distinct : forall (is_user : str -> bool) c ops u1 u2 sp1 sp2 nq1 nq2 n1 n2,
   forallb (op_wfb is_user c) ops = true ->
   let d := run c [] ops in
-  is_user u1 = true -> is_user u2 = true -> truthy sp1 = true -> truthy sp2 = true ->
+  is_user u1 = true -> is_user u2 = true ->
   match_local_id d u1 sp1 nq1 = Ok (Some n1) -> match_local_id d u2 sp2 nq2 = Ok (Some n2) ->
-  u1 <> u2 \/ sp1 <> sp2 ->
+  u1 <> u2 \/ tr sp1 <> tr sp2 \/ tr nq1 <> tr nq2 ->
   n_text n1 <> n_text n2 /\ find_local_id d n1 = Some u1 /\ find_local_id d n2 = Some u2.
 Proof.
   intros is_user c ops u1 u2 sp1 sp2 nq1 nq2 n1 n2 H d. apply persistent_distinct. now apply reachable_inv.
 Qed.
-Print Assumptions C18_persistent_distinct_partial.
+Print Assumptions C18_persistent_distinct.
 
-Theorem C18_persistent_resolves_partial : forall (is_user : str -> bool) c ops u sp nq n,
-  forallb (op_wfb is_user c) ops = true -> is_user u = true -> truthy sp = true ->
+(* FULL statement: whatever persistent_nameid / match_local_id finds, for ANY qualifiers, has a
+   non-empty text that resolves to the user asked for *)
+Theorem C18_persistent_resolves : forall (is_user : str -> bool) c ops u sp nq n,
+  forallb (op_wfb is_user c) ops = true -> is_user u = true ->
   match_local_id (run c [] ops) u sp nq = Ok (Some n) ->
   exists t, n_text n = Some t /\ t <> [] /\ find_local_id (run c [] ops) n = Some u.
 Proof.
-  intros is_user c ops u sp nq n H Hu T M. apply (persistent_resolves is_user _ u sp nq n); auto. now apply reachable_inv.
+  intros is_user c ops u sp nq n H Hu M. apply (persistent_resolves is_user _ u sp nq n); auto. now apply reachable_inv.
 Qed.
-Print Assumptions C18_persistent_resolves_partial.
+Print Assumptions C18_persistent_resolves.
 
-(* ---------------- where the code does not satisfy the full statement ---------------- *)
+(* ... and so does whatever a name-id mapping request returns (an old identifier matching the
+   policy, for ANY policy, or a new one): non-empty text, resolving to the principal of the request *)
+Theorem C18_mapping_resolves : forall (is_user : str -> bool) c ops n pfmt psp allow cands d' m,
+  forallb (op_wfb is_user c) ops = true -> op_wfb is_user c (MapReq n pfmt psp allow cands) = true ->
+  step c (run c [] ops) (MapReq n pfmt psp allow cands) = (d', ONid m) ->
+  exists u t, find_local_id (run c [] ops) n = Some u /\ is_user u = true /\
+              n_text m = Some t /\ t <> [] /\ find_local_id d' m = Some u.
+Proof.
+  intros is_user c ops n pfmt psp allow cands d' m H Hw S.
+  apply (map_req_resolves is_user c (run c [] ops) n pfmt psp allow cands d' m); auto. now apply reachable_inv.
+Qed.
+Print Assumptions C18_mapping_resolves.
+
+(* remove_local(u) in any reachable state (the code after fix C18-2): it returns None, afterwards u
+   has no recorded identifier, no identifier text resolves to u, persistent_nameid would start
+   afresh, and the records and resolutions of every OTHER user are untouched; nothing new resolves *)
+Theorem C18_remove_local_withdraws : forall (is_user : str -> bool) c ops u,
+  forallb (op_wfb is_user c) ops = true -> is_user u = true ->
+  let d := run c [] ops in
+  let d' := fst (step c d (RemoveLocal u)) in
+  snd (step c d (RemoveLocal u)) = ONone /\
+  entries d' u = [] /\ (forall sp nq, match_local_id d' u sp nq = Ok None) /\
+  (forall n t, n_text n = Some t -> is_user t = false -> find_local_id d' n <> Some u) /\
+  (forall u2, is_user u2 = true -> u2 <> u -> entries d' u2 = entries d u2) /\
+  (forall n t u2, n_text n = Some t -> is_user t = false -> u2 <> u ->
+     find_local_id d n = Some u2 -> find_local_id d' n = Some u2) /\
+  (forall n v, find_local_id d' n = Some v -> find_local_id d n = Some v).
+Proof.
+  intros is_user c ops u H Hu d d'. pose proof (reachable_inv is_user c ops H) as I.
+  destruct (remove_local_full is_user d u I Hu) as (R & _ & L & G & EC & K & S).
+  change (fst (do_remove_local d u)) with d' in L, G, EC, K, S.
+  assert (entries d' u = []) as EU by (unfold entries; now rewrite L).
+  split; [exact R|]. split; [exact EU|]. split; [intros sp nq; now rewrite match_local_id_entries, EU|].
+  split; [intros n t T Ht; unfold find_local_id; rewrite T; now apply G|]. split; [exact EC|].
+  split; [intros n t u2 T Ht Hn; unfold find_local_id; rewrite T; now apply K|].
+  intros n v. unfold find_local_id. destruct (n_text n); [apply S|discriminate].
+Qed.
+Print Assumptions C18_remove_local_withdraws.
+
+(* ---------------- the code before the repairs (…_before_fix definitions of Model/Ident.v) ---------------- *)
 Definition two_users (s : str) : bool := str_eqb s (s2l "u1") || str_eqb s (s2l "u2").
 Definition C0 := Cfg [] [].
 Definition E : option str := Some [].
 Definition pers (t : str) : nameid := NameId E E (Some NAMEID_FORMAT_PERSISTENT) None (Some t).
 
-(* Full statement: forall well-formed histories, whatever persistent_nameid returns has a text,
-   resolves to its user, and differs between users.  Refuted with EMPTY qualifiers: after a
-   remove_remote the user's list holds an empty code, which decodes to an all-None identifier
-   that match_local_id accepts: both users get the same text-less identifier. *)
+(* C18_persistent_resolves / C18_persistent_distinct / the first clause of C18_inverse_maps did NOT hold
+   for the code before fix C18-1 (remove_remote wrote the empty string back): after a remove_remote
+   of the only identifier the user's list held an empty code, which decodes to an all-None identifier
+   that match_local_id accepts with EMPTY qualifiers: both users got the same text-less identifier. *)
 Definition F10 : list op :=
   [Persistent (s2l "u1") E E [s2l "a"]; RemoveRemote (pers (s2l "a")); Persistent (s2l "u1") E E [s2l "b"];
    Persistent (s2l "u2") E E [s2l "c"]; RemoveRemote (pers (s2l "c")); Persistent (s2l "u2") E E [s2l "d"]].
-Theorem C18_persistent_empty_refuted :
+Theorem C18_persistent_empty_before_fix_refuted :
   exists (is_user : str -> bool) c ops,
     forallb (op_wfb is_user c) ops = true /\
-    nth 2 (run_outs c [] ops) ONone = ONid empty_nid /\ nth 5 (run_outs c [] ops) ONone = ONid empty_nid /\
-    find_local_id (run c [] ops) empty_nid = None.
-Proof. exists two_users, C0, F10. vm_compute. repeat split; reflexivity. Qed.
-Print Assumptions C18_persistent_empty_refuted.
+    nth 2 (run_outs_before_fix c [] ops) ONone = ONid empty_nid /\ nth 5 (run_outs_before_fix c [] ops) ONone = ONid empty_nid /\
+    find_local_id (run_before_fix c [] ops) empty_nid = None /\
+    In [] (entries (run_before_fix c [] ops) (s2l "u1")) /\
+    (* the repaired code on the same history: two different identifiers, each resolving to its user *)
+    nth 2 (run_outs c [] ops) ONone = ONid (pers (s2l "b")) /\ nth 5 (run_outs c [] ops) ONone = ONid (pers (s2l "d")).
+Proof. exists two_users, C0, F10. vm_compute. repeat split; try reflexivity. left. reflexivity. Qed.
+Print Assumptions C18_persistent_empty_before_fix_refuted.
 
+(* same root cause, through handle_name_id_mapping_request with a policy naming neither format nor
+   SP qualifier (C18_mapping_resolves did not hold before fix C18-1) *)
+Definition F11 : list op :=
+  [Transient (s2l "u1") (Some (s2l "sp1")) E [s2l "a"];
+   RemoveRemote (NameId E (Some (s2l "sp1")) (Some NAMEID_FORMAT_TRANSIENT) None (Some (s2l "a")));
+   Transient (s2l "u1") (Some (s2l "sp2")) E [s2l "b"];
+   MapReq (nid_t (s2l "b")) None None None []].
+Theorem C18_mapping_empty_before_fix_refuted :
+  forallb (op_wfb two_users C0) F11 = true /\
+  nth 3 (run_outs_before_fix C0 [] F11) ONone = ONid empty_nid /\
+  nth 3 (run_outs C0 [] F11) ONone = OErr (s2l "SAMLError").      (* repaired: nothing matches, no format to create one *)
+Proof. vm_compute. repeat split; reflexivity. Qed.
+Print Assumptions C18_mapping_empty_before_fix_refuted.
+
+(* C18_remove_local_withdraws did NOT hold for the code before fix C18-2: remove_local raised NameError
+   (isinstance(sid, unicode) on Python 3) and withdrew nothing *)
+Definition F12 : list op := [Persistent (s2l "u1") (Some (s2l "sp1")) E [s2l "a"]; RemoveLocal (s2l "u1")].
+Theorem C18_remove_local_before_fix_refuted :
+  forallb (op_wfb two_users C0) F12 = true /\
+  nth 1 (run_outs_before_fix C0 [] F12) ONone = OErr (s2l "NameError") /\
+  find_local_id (run_before_fix C0 [] F12) (nid_t (s2l "a")) = Some (s2l "u1") /\
+  nth 1 (run_outs C0 [] F12) ONone = ONone /\ find_local_id (run C0 [] F12) (nid_t (s2l "a")) = None.
+Proof. vm_compute. repeat split; reflexivity. Qed.
+Print Assumptions C18_remove_local_before_fix_refuted.
+
+(* ---------------- where the code does not satisfy the full statement (outside op_wfb) ---------------- *)
 (* Full statement of (2) for ALL public methods: refuted for the raw store(), which re-binds an
    identifier text without looking (the record under u1 stays, the text now resolves to u2) *)
 Theorem C18_raw_store_refuted :
@@ -164,14 +241,17 @@ Theorem C18_email_collision_refuted :
 Proof. eexists. vm_compute. repeat split; try reflexivity. left. reflexivity. Qed.
 Print Assumptions C18_email_collision_refuted.
 
-(* the hypotheses are satisfiable by a non-trivial history: issue, collide, manage, map, remove *)
+(* the hypotheses are satisfiable by a non-trivial history: issue, collide, manage, map, remove,
+   withdraw a user (the other user's identifier stays), issue again *)
 Example C18_witness :
   let sp1 := Some (s2l "sp1") in let sp2 := Some (s2l "sp2") in
   let a := NameId E sp1 (Some NAMEID_FORMAT_PERSISTENT) None (Some (s2l "a")) in
   let ops := [Persistent (s2l "u1") sp1 E [s2l "a"]; Persistent (s2l "u2") sp1 E [s2l "a"; s2l "b"];
               Transient (s2l "u1") sp2 E [s2l "b"; s2l "a"; s2l "c"];
               Manage a (ANew (Some (s2l "x,y=z %"))); MapReq (nid_t (s2l "a")) (Some NAMEID_FORMAT_PERSISTENT) sp2 None [s2l "e"];
-              Persistent (s2l "u1") sp1 E []; RemoveRemote (nid_t (s2l "c"))] in
+              Persistent (s2l "u1") sp1 E []; RemoveRemote (nid_t (s2l "c"));
+              RemoveLocal (s2l "u1"); FindLocalId (nid_t (s2l "a")); FindLocalId (nid_t (s2l "e")); FindLocalId (nid_t (s2l "b"));
+              FindNameid (s2l "u1") []; Persistent (s2l "u1") sp1 E [s2l "a"]] in
   forallb (op_wfb two_users C0) ops = true /\
   map show_out (run_outs C0 [] ops) =
     [show_nid a; show_nid (NameId E sp1 (Some NAMEID_FORMAT_PERSISTENT) None (Some (s2l "b")));
@@ -179,6 +259,7 @@ Example C18_witness :
      show_nid (NameId E sp1 (Some NAMEID_FORMAT_PERSISTENT) (Some (s2l "x,y=z %")) (Some (s2l "a")));
      show_nid (NameId (Some []) sp2 (Some NAMEID_FORMAT_PERSISTENT) None (Some (s2l "e")));
      show_nid (NameId None sp1 (Some NAMEID_FORMAT_PERSISTENT) (Some (s2l "x,y=z %")) (Some (s2l "a")));
-     VE (s2l "ValueError")].
+     VE (s2l "ValueError");
+     VNone; VNone; VNone; VS (s2l "u2"); VL []; show_nid a].
 Proof. vm_compute. split; reflexivity. Qed.
 Print Assumptions C18_witness.
